@@ -124,7 +124,106 @@ def one_case(args):
     return {'opts': opts, 'mode': mode, 'streams': streams, 'kind': kind, 'impl': impl, 'sub': use_sub}
 
 
+def cert_case(args):
+    """One case of the reify option family: the tool twice (second pass on the output of the first)."""
+    idx, seed = args
+    rng = random.Random(f'C20C:{seed}:{idx}')
+    common.use_repo()
+    opts = {}
+    r = rng.random()
+    if r < .55:
+        opts['amr'] = True
+    elif r < .7:
+        opts['model'] = True
+    elif r < .75:
+        opts['noop'] = True
+    pick = rng.choice([('--reify-edges',), ('--reify-attributes',), ('--reify-edges', '--reify-attributes')])
+    for f in pick:
+        opts[f] = True
+    if rng.random() < .4:
+        opts['--canonicalize-roles'] = True
+    opts['indent'] = rng.choice(oracle.INDENTS)
+    if rng.random() < .3:
+        opts['compact'] = True
+    mname = 'amr' if opts.get('amr') else 'mini' if opts.get('model') else 'default'
+    stream = oracle.gen_stream(rng, mname, canonicalize=bool(opts.get('--canonicalize-roles')))
+    tmpdir = tempfile.mkdtemp(prefix='c20c_')
+    try:
+        mpath = None
+        if opts.get('model'):
+            tbl = models.MINI_AMR
+            mpath = os.path.join(tmpdir, 'model.json')
+            with open(mpath, 'w') as f:
+                json.dump({'roles': {r: {} for r in tbl['roles']}, 'normalizations': tbl['norms'],
+                           'reifications': [list(r) for r in tbl['reifs']]}, f)
+        argv = oracle.argv_of(opts, mpath)
+        try:
+            out1, code1, _ = oracle.run_cli_inprocess(argv, stream, [])
+            out2, code2, _ = oracle.run_cli_inprocess(argv, out1, []) if code1 == 0 else (None, None, None)
+            impl = ('exit', out1, code1, out2, code2)
+            key = None
+            if code1 == 0 and (out1, code1) != (out2, code2):
+                # the same classification as the oracle in harness/c20.py: the two known findings, else a new failure
+                model = oracle.get_model(opts, models.MINI_AMR if opts.get('model') else None)
+                key = 'idempotence'
+                if opts.get('--reify-attributes') and opts.get('--reify-edges') and oracle.has_inverted_reifiable_attribute([stream], model):
+                    key = 'F30-inverted-reifiable-attribute'
+                elif opts.get('--canonicalize-roles') and opts.get('--reify-edges') and oracle.normalised_inverse_reifiable(out1, model):
+                    key = 'F32-normalised-inverse-role-reified'
+            impl = impl + (key,)
+        except common.Timeout:
+            impl = ('hang',)
+        except Exception as e:           # noqa
+            impl = ('raised', type(e).__name__)
+    finally:
+        for f in os.listdir(tmpdir):
+            os.unlink(os.path.join(tmpdir, f))
+        os.rmdir(tmpdir)
+    return {'opts': opts, 'stream': stream, 'impl': impl}
+
+
+def certificate_stream(chk):
+    """Properties/C20c.v: for --reify-edges / --reify-attributes (+ --canonicalize-roles, formatting) the extracted
+    model evaluates the idempotence certificate on the input; where it holds the theorem C20c_certificate_sound
+    says the model's second pass reproduces the first, so the TOOL's second pass must too (Impl.Cli = the tool)."""
+    n = 500 if chk.tier == 'quick' else 5000
+    res = common.pmap(cert_case, [(i, chk.seed) for i in range(n)], chunk=25)
+    wires, requests = {}, []
+    for r in res:
+        o = r['opts']
+        mkey = 'amr' if o.get('amr') else 'noop' if o.get('noop') else 'mini' if o.get('model') else 'default'
+        if mkey not in wires:
+            wires[mkey] = models.wire_model(table_of(o))
+        requests.append([2, wire_opts(o, wires[mkey], [r['stream']]), common.e_str(r['stream'])])
+    answers = common.run_driver('cli', requests, shard=100)
+    for r, a in zip(res, answers):
+        chk.corr_cases += 1
+        case = {'opts': r['opts'], 'mode': 'stdin', 'streams': [r['stream']]}
+        impl = r['impl']
+        if impl[0] != 'exit' or impl[2] != 0:
+            chk.stat('cert:first-pass-fails')
+            if a == 1:
+                chk.mismatch('the certificate holds in the model but the first pass of the tool fails', case, list(impl)[:2], a)
+            continue
+        same = (impl[1], impl[2]) == (impl[3], impl[4])
+        if a == 1:
+            chk.stat('cert:certified')
+            if not same:
+                chk.mismatch('the idempotence certificate (C20c) holds in the model but the second pass of the tool differs',
+                             dict(case, first=impl[1], second=impl[3]), [impl[3], impl[4]], [impl[1], impl[2]])
+        elif a == 0:
+            chk.stat('cert:not-certified-' + ('but-idempotent' if same else 'and-not-idempotent'))
+            if not same:
+                chk.fail(impl[5], 'feeding the output back with the same options changes it (reify option family, not certified)',
+                         dict(case, first=impl[1], second=impl[3]))
+        else:
+            chk.stat('cert:format-outside-model')
+    chk.notes.append('idempotence certificate (Properties/C20c.v) evaluated through the extracted model on '
+                     f'{len(res)} runs of the reify option family; certified runs must be (and are) byte-idempotent on the tool')
+
+
 def run(chk):
+    certificate_stream(chk)
     n = 1500 if chk.tier == 'quick' else 15000
     res = common.pmap(one_case, [(i, chk.seed) for i in range(n)], chunk=25)
     wires = {}
